@@ -64,13 +64,15 @@ TIMEOUT = 600.0
 
 def thresholds(tier):
     m = 1 if tier == "quick" else 25
-    return {"models_used": 10 * m, "pipelines": 160 * m, "reached_value": 30 * m, "roundtrip_equivalent": 30 * m,
-            "export:if": 30 * m, "export:loop_while": 10 * m, "export:loop_for": 4 * m, "export:inline_const": 30 * m,
-            "export:operator_form": 30 * m, "export:make_model": 6 * m, "function_protos": 3 * m,
-            "anchor:onnxscript.backend.onnx_export:_Exporter._translate_node": 3000 * m,
-            "anchor:onnxscript.backend.onnx_export:_Exporter._translate_if": 30 * m,
-            "anchor:onnxscript.backend.onnx_export:_Exporter._translate_loop": 30 * m,
-            "distinct_nontrivial": 8 * m}
+    return {"models_used": 20 * m, "pipelines": 350 * m, "reached_value": 150 * m, "roundtrip_equivalent": 150 * m,
+            "export:if": 150 * m, "export:loop_while": 100 * m, "export:loop_for": 40 * m, "export:inline_const": 700 * m,
+            "export:operator_form": 1000 * m, "export:make_model": 6 * m, "export:function": 150 * m, "function_protos": 10 * m,
+            "opt0000:roundtrip_equivalent": 15 * m, "opt0110:roundtrip_equivalent": 15 * m, "opt1000:roundtrip_equivalent": 8 * m,
+            "opt0001:roundtrip_equivalent": 8 * m, "opt1111:roundtrip_equivalent": 8 * m,
+            "anchor:onnxscript.backend.onnx_export:_Exporter._translate_node": 8000 * m,
+            "anchor:onnxscript.backend.onnx_export:_Exporter._translate_if": 170 * m,
+            "anchor:onnxscript.backend.onnx_export:_Exporter._translate_loop": 200 * m,
+            "distinct_nontrivial": 19 * m}
 
 
 def cases(tier, seed):
